@@ -149,6 +149,21 @@ func focusedCase(g *Gen) (string, Req) {
 			mods[len(mods)-1] = "domain=" + strings.Join(vals, "|")
 			r.Source = "https://" + Pick(g, []string{"", "www.", "a.b."}) + host + "/page"
 		}
+		if g.Chance(1, 6) {
+			// a wildcard-TLD value whose name re-occurs, unaligned, inside a multi-label public suffix
+			// (go.* on go.hyogo.jp): any textual pre-check must not be confused by the later occurrence
+			nm, host := wildcardInSuffix(g)
+			vals := []string{nm + ".*"}
+			if g.Chance(1, 3) {
+				vals = append(vals, Pick(g, hostPool))
+				Shuffle(g, vals)
+			}
+			if g.Chance(1, 4) {
+				vals[0] = "~" + vals[0]
+			}
+			mods[len(mods)-1] = "domain=" + strings.Join(vals, "|")
+			r.Source = "https://" + Pick(g, []string{"", "", "www.", "a.b."}) + host + "/page"
+		}
 	case 2: // $denyallow on the request host (pattern must not pin the host)
 		vals := pickSome(g, hostPool, 1, 3)
 		mods = append(mods, "denyallow="+strings.Join(vals, "|"), "domain=example.org")
@@ -158,6 +173,16 @@ func focusedCase(g *Gen) (string, Req) {
 		}
 		r.URL = "http://" + hostVariant(g, Pick(g, vals)) + path
 		r.Source = "http://example.org/"
+		if g.Chance(1, 6) {
+			nm, host := wildcardInSuffix(g)
+			vals = []string{nm + ".*"}
+			if g.Bool() {
+				vals = append(vals, Pick(g, hostPool))
+				Shuffle(g, vals)
+			}
+			mods[0] = "denyallow=" + strings.Join(vals, "|")
+			r.URL = "http://" + Pick(g, []string{"", "", "www.", "a.b."}) + host + path
+		}
 		if g.Chance(1, 3) {
 			// hostname requests: real IP addresses are exempt from $denyallow, names that merely LOOK like addresses
 			// (only hex digits, dots and colons) are not
@@ -265,4 +290,20 @@ func focusedCase(g *Gen) (string, Req) {
 		t += "$" + strings.Join(mods, ",")
 	}
 	return t, r
+}
+
+// wildcardInSuffix returns a name and a host name.<suffix> such that the multi-label ICANN public suffix contains
+// "name." as the tail of one of its non-final labels (or the host is an unrelated neighbour, as a control).
+func wildcardInSuffix(g *Gen) (name, host string) {
+	pairs := [][2]string{{"go", "hyogo.jp"}, {"co", "eco.br"}, {"ice", "police.uk"}, {"o", "co.uk"}, {"e", "ne.jp"},
+		{"om", "com.au"}, {"rg", "org.uk"}, {"ov", "gov.uk"}, {"c", "ac.uk"}, {"et", "net.au"}, {"go", "go.jp"}}
+	p := Pick(g, pairs)
+	name, host = p[0], p[0]+"."+p[1]
+	switch g.Intn(8) {
+	case 0:
+		host = "x" + host // not a subdomain of name.<suffix>
+	case 1:
+		host = p[1] // the bare suffix
+	}
+	return name, host
 }
